@@ -55,6 +55,12 @@ pub enum T {
     IPlusJ,
     /// `-i`
     NegI,
+    /// `CAST(-i AS INT)` (a cast wrapping a negated column: the operator flip of the inner rewrite must survive)
+    CastNegI32,
+    /// `TRY_CAST(-i AS INT)`
+    TryCastNegI32,
+    /// `-CAST(j AS BIGINT)`
+    NegCastJ64,
 }
 
 #[derive(Serialize, Deserialize, Clone, Debug, Hash, PartialEq, Eq)]
@@ -79,7 +85,8 @@ impl T {
         let c = match self {
             T::Col(c) => vec![*c],
             T::CastJ64 | T::TryCastJ64 => vec![2],
-            T::CastI32 | T::CastIStr | T::IPlus1 | T::NegI => vec![0],
+            T::CastI32 | T::CastIStr | T::IPlus1 | T::NegI | T::CastNegI32 | T::TryCastNegI32 => vec![0],
+            T::NegCastJ64 => vec![2],
             T::IPlusJ => vec![0, 2],
             _ => vec![],
         };
@@ -110,7 +117,11 @@ impl T {
                 (V::I(x), V::I(y)) => V::I(x + y),
                 _ => V::Null,
             },
-            T::NegI => match &r[0] {
+            T::NegI | T::CastNegI32 | T::TryCastNegI32 => match &r[0] {
+                V::I(x) => V::I(-x),
+                _ => V::Null,
+            },
+            T::NegCastJ64 => match &r[2] {
                 V::I(x) => V::I(-x),
                 _ => V::Null,
             },
@@ -131,6 +142,9 @@ impl T {
             T::IPlus1 => "i + 1".into(),
             T::IPlusJ => "i + CAST(j AS BIGINT)".into(),
             T::NegI => "-i".into(),
+            T::CastNegI32 => "CAST(-i AS INT)".into(),
+            T::TryCastNegI32 => "TRY_CAST(-i AS INT)".into(),
+            T::NegCastJ64 => "-CAST(j AS BIGINT)".into(),
         }
     }
     pub fn expr(&self) -> Expr {
@@ -151,6 +165,9 @@ impl T {
                 Box::new(Expr::Cast(Cast::new(Box::new(col("j")), DataType::Int64))),
             )),
             T::NegI => Expr::Negative(Box::new(col("i"))),
+            T::CastNegI32 => Expr::Cast(Cast::new(Box::new(Expr::Negative(Box::new(col("i")))), DataType::Int32)),
+            T::TryCastNegI32 => Expr::TryCast(datafusion_expr::expr::TryCast::new(Box::new(Expr::Negative(Box::new(col("i")))), DataType::Int32)),
+            T::NegCastJ64 => Expr::Negative(Box::new(Expr::Cast(Cast::new(Box::new(col("j")), DataType::Int64)))),
         }
     }
 }
@@ -403,6 +420,8 @@ pub fn atoms(core: bool) -> Vec<P> {
             P::Between(i(), n(2), n(3), false),
             P::Distinct(i(), n(2), false),
             cmp(T::NegI, ">", n(-2)),
+            cmp(T::CastNegI32, ">", T::I32(Some(-2))),
+            cmp(T::TryCastNegI32, "<=", T::I32(Some(-2))),
             cmp(s(), "=", st("ab")),
             cmp(s(), ">", st("a")),
             cmp(s(), "<>", st("a")),
@@ -448,6 +467,14 @@ pub fn atoms(core: bool) -> Vec<P> {
         cmp(T::NegI, ">", n(-2)),
         cmp(T::NegI, "=", n(-3)),
         cmp(T::NegI, "<=", n(-2)),
+        cmp(T::CastNegI32, ">", T::I32(Some(-2))),
+        cmp(T::CastNegI32, "<", T::I32(Some(-1))),
+        cmp(T::CastNegI32, ">=", T::I32(Some(-1))),
+        cmp(T::I32(Some(-2)), "<", T::CastNegI32),
+        cmp(T::TryCastNegI32, "<=", T::I32(Some(-2))),
+        cmp(T::TryCastNegI32, ">", T::I32(Some(-3))),
+        cmp(T::NegCastJ64, "<", n(-1)),
+        cmp(T::NegCastJ64, ">=", n(-1)),
         cmp(T::IPlus1, "=", n(3)),
         cmp(T::IPlus1, ">", n(3)),
         cmp(T::IPlusJ, "=", n(3)),
